@@ -15,7 +15,6 @@ u8* blk[2]; u64 blksz[2]; int nblk;
 u8* _ZN3tbb6detail2r115allocate_memoryEm(u64 n) {
   u8* p = malloc(n); __CPROVER_assume(p != 0);
   VP_ASSERT(nblk < 2, "more bucket blocks allocated than segments enabled");
-  for (u64 i = 0; i < n && i < 4096; i++) p[i] = (u8)vp_nd();      /* arbitrary previous content */
   blk[nblk] = p; blksz[nblk] = n; nblk++; return p;
 }
 void _ZN3tbb6detail2r117deallocate_memoryEPv(u8* p) { VP_ASSERT(0, "unexpected deallocation"); }
